@@ -130,7 +130,7 @@ def e2_scenarios(tier):
   two = dict(script="two-kinds", kinds=("fifo", "lifo"))
   during = dict(script="resubscribe-during-delivery", kinds=("fifo",))
   if tier == "quick":
-    return [(late, 32), (during, 32)]        # thorough uses K=40, where the adequacy query shows every behaviour is covered
+    return [(late, 32), (during, 36)]        # thorough uses K >= 40 throughout, where the adequacy query shows every behaviour is covered
   return [(late, 40), (resub, 40), (during, 40), (two, 38)]
 
 
@@ -142,7 +142,7 @@ def e2_specs(tier):
   out = []
   to = 900 if tier == "quick" else 3000
   for (kw, K) in e2_scenarios(tier):
-    out.append(dict(scenario="fabric_delivery", kwargs=kw, kind="reach", K=K, pred="fabric_all_delivered", timeout=to))
+    out.append(dict(scenario="fabric_delivery", kwargs=kw, kind="reach", K=K + 8, pred="fabric_all_delivered", timeout=to))
     out.append(dict(scenario="fabric_delivery", kwargs=kw, kind="safety", K=K, pred="fabric_overdelivery", timeout=to, replay="fabric_delivery_replay"))
     out.append(dict(scenario="fabric_delivery", kwargs=kw, kind="deadlock", K=K, pred="fabric_quiescent_wrong", timeout=to, replay="fabric_delivery_replay"))
     out.append(dict(scenario="fabric_delivery", kwargs=kw, kind="adequacy", K=K, timeout=to))
